@@ -28,4 +28,13 @@ PROPS = {
         "level_note": "Trusted: Lean kernel (propext, Quot.sound), Model/Attempts.lean being the image of actions.go (sampled by the differential), Retry semantics as read, logical clock for times.",
         "technique": "induction over the retry loop in Lean 4 (loop = closed form over consumed outcomes) + exact differential correspondence on event sequences",
     },
+    "C20": {
+        "theorems": ["sticky", "sticky_run", "after_emit", "refused_keeps_plan", "step_wf", "no_panic", "new_wf"],
+        "assumptions": COMMON_ASSUME + ["errors are compared by class (DESIGN 3.9); identity of the sticky error value is checked on the implementation",
+                                        "caller-supplied *Checks/*Sequence/*Action values are fresh per call (re-using one pointer in two places is outside the statement)"],
+        "trusted": ["modelled: workflow/builder/builder.go (Model/Builder.lean)"],
+        "level_text": "Lean theorems over every call history: a recorded misuse is returned unchanged by every later non-Reset call and the plan is untouched (sticky, sticky_run); every use after emission is refused and leaves the emitted plan untouched; a refused call never changes the plan; no history panics (full statement, proved after the two fix: commits). Tie: exact differential of per-call results and of every emitted plan (at emission and at the end of the history) on random histories.",
+        "level_note": "Trusted: Lean kernel (propext, Quot.sound, Classical.choice where simp uses it), Model/Builder.lean being the image of builder.go (sampled by the differential). The equivalence with an independent bottom-up reference construction is checked by the differential on emitted plans, not yet as a theorem.",
+        "technique": "case analysis + induction over call histories in Lean 4 (inductive invariant WF) + exact differential correspondence",
+    },
 }
